@@ -95,6 +95,31 @@ func (x *Explorer) ExploreAll() {
 					x.Error = fmt.Sprintf("replay divergence at point %d: %d alternatives, recorded %d", i, len(alts), len(f.alts))
 					return -1
 				}
+				// Every execution runs on a fresh instance, so object addresses in the recorded
+				// signatures are stale: rebind the frame to this execution's pending operations.
+				// A sleeping thread has not moved since it fell asleep, so its pending operation is
+				// the one listed for it here; one that is not listed (not enabled) is woken, which
+				// is always sound.
+				for j := range alts {
+					if alts[j].Thread != f.alts[j].Thread {
+						x.Error = fmt.Sprintf("replay divergence at point %d: alternative %d is thread %d, recorded %d", i, j, alts[j].Thread, f.alts[j].Thread)
+						return -1
+					}
+				}
+				f.alts = alts
+				if !f.env {
+					for t := range f.sleep {
+						found := false
+						for _, a := range alts {
+							if a.Thread == t {
+								f.sleep[t], found = a.Op, true
+							}
+						}
+						if !found {
+							delete(f.sleep, t)
+						}
+					}
+				}
 				return f.chosen
 			}
 			f := &frame{alts: alts, env: env, done: make([]bool, len(alts)), sleep: map[int]OpSig{}}
